@@ -91,8 +91,10 @@ def run_case(case, wall=8.0, max_steps=6000):
             return r
 
         def cancel(self):
+            # logged once the flag is set: the yield point of ScheduledItem.cancel's line lies before the write
+            r = super().cancel()
             log.append(("L", self.n, "dispose", tid()))
-            return super().cancel()
+            return r
 
     class FakeExecutor:
         def submit(self, fn):
